@@ -1778,7 +1778,8 @@ Error query_features(Arch arch, const BaseInst& inst, const Operand_* operands, 
 
         // Special case: VPERMQ - AVX2 vs AVX512-F case.
         case Inst::kIdVpermq:
-          use_evex |= uint32_t(op_count >= 3 && (operands[1].is_mem() || !operands[2].is_imm()));
+          // The VEX form also takes a memory source (vpermq ymm, ymm/m256, imm8); only a broadcast forces EVEX.
+          use_evex |= uint32_t(op_count >= 3 && ((operands[1].is_mem() && operands[1].as<Mem>().has_broadcast()) || !operands[2].is_imm()));
           break;
       }
 
